@@ -14,6 +14,7 @@ from .classtable import (Ty, TBool, TInt, TReal, TStr, TDT, TVal, TNode, TSeq, T
 from .values import (SV, Rec, Box, Exc, BoundMethod, VirtualMethod, Closure, FunSym, Opaque, PyRaise,
                      ReturnSig, Untranslatable, is_concrete)
 from .interp_expr import BuiltinMethod, Frame
+from . import recfuns
 
 
 class Reversed:
@@ -89,7 +90,9 @@ class BuiltinsMixin:
         if isinstance(t, Box):
             return Box('set', items=list(t.items) if t.items is not None else None, term=t.term, elem=t.elem)
         if isinstance(t, SV):
-            return Box('set', term=self.seq_to_set(t), elem=t.ty.elem)
+            b = Box('set', term=self.seq_to_set(t), elem=t.ty.elem)
+            b.from_seq = t.term
+            return b
         for x in t:
             self.set_add(b, x)
         return b
@@ -260,7 +263,7 @@ class BuiltinsMixin:
             f = z3.RecFunction(f'rev_{ty.elem!r}', srt, srt)
             s = z3.Const('s', srt)
             n = z3.Length(s)
-            z3.RecAddDefinition(f, [s], z3.If(n == 0, s, z3.Concat(f(z3.SubSeq(s, 1, n - 1)), z3.Unit(s[0]))))
+            recfuns.define(f, [s], z3.If(n == 0, s, z3.Concat(f(z3.SubSeq(s, 1, n - 1)), z3.Unit(s[0]))))
             self.aux_funs[key] = f
         return self.aux_funs[key]
 
@@ -386,7 +389,7 @@ class BuiltinsMixin:
             s = z3.Const('s', srt)
             n = z3.Length(s)
             rest = f(z3.SubSeq(s, 1, n - 1))
-            z3.RecAddDefinition(f, [s], z3.If(n == 0, z3.BoolVal(not is_any),
+            recfuns.define(f, [s], z3.If(n == 0, z3.BoolVal(not is_any),
                                               z3.Or(s[0], rest) if is_any else z3.And(s[0], rest)))
             self.aux_funs[key] = f
         return self.aux_funs[key]
@@ -729,7 +732,7 @@ class BuiltinsMixin:
             sep = z3.Const('sep', z3.StringSort())
             s = z3.Const('s', srt)
             n = z3.Length(s)
-            z3.RecAddDefinition(f, [sep, s], z3.If(n == 0, z3.StringVal(''),
+            recfuns.define(f, [sep, s], z3.If(n == 0, z3.StringVal(''),
                                                    z3.If(n == 1, s[0],
                                                          z3.Concat(s[0], sep, f(sep, z3.SubSeq(s, 1, n - 1))))))
             self.aux_funs[key] = f
